@@ -2,6 +2,7 @@
 package c07
 
 import (
+	"io"
 	"errors"
 	"fmt"
 	"time"
@@ -97,25 +98,56 @@ func runFile(c *fw.Ctx, f filedrv.File) {
 			}
 		}
 	}
-	// (f) callback failure at every index
-	for i := 0; i < total; i++ {
-		c.Eval(1)
-		desc := fmt.Sprintf("file %s callback fails at record %d", f.Name, i)
-		locus := f.Codec + "|callback-error"
-		c.Begin(locus, desc)
-		res := filedrv.Read(f.Data, 0, f.SC.Type, false, i, errSentinel)
-		if report(c, res, locus, desc, desc) {
-			continue
+	// (g) a second reader of the same file, run to completion from inside the callback of record i: two readers
+	// of one codec alive at once; the outer one must go on delivering its own records
+	if !f.Big {
+		for i := 0; i < total; i++ {
+			c.Eval(1)
+			desc := fmt.Sprintf("file %s, a second ReadFile of the same file run from inside the callback of record %d", f.Name, i)
+			locus := f.Codec + "|nested-reader"
+			c.Begin(locus, desc)
+			res, innerN, innerErr := filedrv.ReadNested(f.Data, f.Data, i%filedrv.NumReadModes, f.SC.Type, i)
+			if report(c, res, locus, desc, desc) {
+				continue
+			}
+			c.Nontrivial(desc)
+			switch {
+			case res.Err != nil || innerErr != nil:
+				c.Violation("spurious-error|"+locus, fmt.Sprintf("outer err=%v inner err=%v — %s", res.Err, innerErr, desc), desc)
+			case len(res.Records) != total || innerN != total:
+				c.Violation("wrong-record-count|"+locus, fmt.Sprintf("outer delivered %d, inner %d, the file holds %d — %s", len(res.Records), innerN, total, desc), desc)
+			default:
+				if d := f.ComparePrefix(res.Records, total); d != "" {
+					c.Violation("wrong-record|"+locus, d+" — "+desc, desc)
+				}
+			}
 		}
-		c.Nontrivial(desc)
-		if len(res.Records) != i+1 {
-			c.Violation("callback-error-not-stopping|"+locus, fmt.Sprintf("%d callbacks, expected exactly %d — %s", len(res.Records), i+1, desc), desc)
-		}
-		if res.Err != errSentinel {
-			c.Violation("callback-error-changed|"+locus, fmt.Sprintf("ReadFile returned %v, expected the callback's error unchanged — %s", res.Err, desc), desc)
-		}
-		if d := f.ComparePrefix(res.Records, min(i+1, len(res.Records))); d != "" {
-			c.Violation("wrong-record|"+locus, d+" — "+desc, desc)
+	}
+	// (f) callback failure at every index, with the caller's own sentinel and with errors the reader itself knows
+	// (a callback that reads from or writes to a stream of its own will return io.EOF and friends)
+	for ei, cbErr := range []error{errSentinel, io.EOF, io.ErrUnexpectedEOF, io.ErrShortWrite} {
+		for i := 0; i < total; i++ {
+			c.Eval(1)
+			desc := fmt.Sprintf("file %s callback fails at record %d with %v", f.Name, i, cbErr)
+			locus := f.Codec + "|callback-error"
+			if ei > 0 {
+				locus += "|io-error-value"
+			}
+			c.Begin(locus, desc)
+			res := filedrv.Read(f.Data, (i+ei)%filedrv.NumReadModes, f.SC.Type, false, i, cbErr)
+			if report(c, res, locus, desc, desc) {
+				continue
+			}
+			c.Nontrivial(desc)
+			if len(res.Records) != i+1 {
+				c.Violation("callback-error-not-stopping|"+locus, fmt.Sprintf("%d callbacks, expected exactly %d — %s", len(res.Records), i+1, desc), desc)
+			}
+			if res.Err != cbErr {
+				c.Violation("callback-error-changed|"+locus, fmt.Sprintf("ReadFile returned %v, expected the callback's error unchanged — %s", res.Err, desc), desc)
+			}
+			if d := f.ComparePrefix(res.Records, min(i+1, len(res.Records))); d != "" {
+				c.Violation("wrong-record|"+locus, d+" — "+desc, desc)
+			}
 		}
 	}
 	// bit flips
@@ -260,7 +292,7 @@ func init() {
 			if tier == "thorough" {
 				n = 4
 			}
-			return fmt.Sprintf("file family {3 schemas} × {null,deflate,snappy} × every composition of <=%d records into blocks (+70-record blocks; + per codec two Big files: a 3000-record highly compressible block, and a 3/90/3-record file whose middle block exceeds 100 KiB on the wire so that the reader's buffer grows mid-block — for Big files payload bytes are flipped at every 23rd / 499th site, all other sites fully), written by the reference writer; per file: intact read under 6 readers (full, 1-byte, data+EOF, *bytes.Buffer, 16-byte *bufio.Reader, every other Read returning (0, nil)) × value/pointer target; files with EMPTY blocks (count 0) first, between and after full blocks; callback failing at every record index; EVERY BIT of every block sync marker, of the header sync (when a block exists), of every snappy CRC, of every compressed payload byte (deflate, snappy) and of the magic flipped one at a time; metadata variants (schema removed, codec absent/unknown spellings, reordered, extra keys, and the metadata map written in every composition of its entries into map blocks, plain and byte-size-prefixed); a case is one damaged or intact file; non-trivial = ReadFile completed and its result was compared with the oracle", n)
+			return fmt.Sprintf("file family {3 schemas} × {null,deflate,snappy} × every composition of <=%d records into blocks (+70-record blocks; + per codec two Big files: a 3000-record highly compressible block, and a 3/90/3-record file whose middle block exceeds 100 KiB on the wire so that the reader's buffer grows mid-block — for Big files payload bytes are flipped at every 23rd / 499th site, all other sites fully), written by the reference writer; per file: intact read under 6 readers (full, 1-byte, data+EOF, *bytes.Buffer, 16-byte *bufio.Reader, every other Read returning (0, nil)) × value/pointer target; files with EMPTY blocks (count 0) first, between and after full blocks; a second complete ReadFile of the same file started from inside the callback of every record index (two live readers of one codec); callback failing at every record index with the caller's own error value and with io.EOF / io.ErrUnexpectedEOF / io.ErrShortWrite; EVERY BIT of every block sync marker, of the header sync (when a block exists), of every snappy CRC, of every compressed payload byte (deflate, snappy) and of the magic flipped one at a time; metadata variants (schema removed, codec absent/unknown spellings, reordered, extra keys, and the metadata map written in every composition of its entries into map blocks, plain and byte-size-prefixed); a case is one damaged or intact file; non-trivial = ReadFile completed and its result was compared with the oracle", n)
 		},
 		Assumptions: []string{
 			"for a flipped payload bit the claim is made only when the reference decompressor (stdlib flate / golang/snappy + CRC) rejects the damaged payload; flips it accepts are counted, not judged",
